@@ -90,9 +90,12 @@ def zipEdges (cmp : TextCmp) : List Edge → List Edge → Bool
 /-- `filter_edge` of `advanced_deep_equal`. -/
 def filterEdge (filter : NodeFilter) (e : Edge) : Bool := filter e.node
 
-/-- `advanced_deep_equal(a, b, filter, text_compare)`. -/
+/-- `advanced_deep_equal(a, b, filter, text_compare)`: attribute and namespace nodes are not part
+    of a traversal and are compared directly (before any filtering); otherwise the zip of the two
+    filtered edge streams. -/
 def advancedDeepEqual (filter : NodeFilter) (cmp : TextCmp) (a b : Tree) : Bool :=
-  zipEdges cmp ((traverseEdges a).filter (filterEdge filter)) ((traverseEdges b).filter (filterEdge filter))
+  if !a.value.isNormal || !b.value.isNormal then compareValue cmp a b
+  else zipEdges cmp ((traverseEdges a).filter (filterEdge filter)) ((traverseEdges b).filter (filterEdge filter))
 
 /-- `|a, b| a == b`. -/
 def strEq : TextCmp := fun a b => a == b
@@ -122,10 +125,10 @@ def deepEqualXpath (cmp : TextCmp) (a b : Tree) : Bool :=
 /-- `usize` arithmetic of a release build without overflow checks (64-bit target). -/
 def usizeModulus : Nat := 2 ^ 64
 def usizeWrap (n : Nat) : Nat := n % usizeModulus
-def usizeSub (x y : Nat) : Nat := (usizeWrap x + usizeModulus - usizeWrap y) % usizeModulus
 
 /-- First loop of `shallow_equal_ignore_attributes` over `a_attributes.iter()`:
-    `none` = the early `return false`, `some n` = `compare_attributes_count`. -/
+    `none` = the early `return false`, `some n` = `compare_attributes_count` (a `usize`
+    incremented with `+= 1`; the harness is built with `overflow-checks = false`). -/
 def shallowCountLoop (ignore : List Nat) (b : Tree) : List (Nat × Str) → Nat → Option Nat
   | [], count => some count
   | (key, va) :: rest, count =>
@@ -133,21 +136,18 @@ def shallowCountLoop (ignore : List Nat) (b : Tree) : List (Nat × Str) → Nat 
     else if some va != b.getAttribute key then none
     else shallowCountLoop ignore b rest (usizeWrap (count + 1))
 
-/-- Second loop: how many entries of the ignore list (repetitions counted) `b` has. -/
-def shallowIgnoreCount (ignore : List Nat) (b : Tree) : Nat :=
-  (ignore.filter fun n => (b.getAttribute n).isSome).length
+/-- `b_attributes.keys().filter(|key| !ignore_attributes.contains(key)).count()`. -/
+def shallowCompareCount (ignore : List Nat) (b : Tree) : Nat :=
+  ((b.attrs.map (·.1)).filter fun key => !ignore.contains key).length
 
-/-- `shallow_equal_ignore_attributes`. The last line is
-    `compare_attributes_count == b_attributes.len() - b_ignore_attributes` on `usize`: the
-    harness is built with `overflow-checks = false`, so the subtraction wraps modulo 2^64
-    (with overflow checks — dev profile — it panics instead; not modelled). -/
+/-- `shallow_equal_ignore_attributes`. -/
 def shallowEqualIgnoreAttributes (a b : Tree) (ignore : List Nat) : Bool :=
   match a.value, b.value with
   | .element na, .element nb =>
     if na != nb then false
     else match shallowCountLoop ignore b a.attrs 0 with
       | none => false
-      | some count => count == usizeSub b.attrLen (usizeWrap (shallowIgnoreCount ignore b))
+      | some count => count == shallowCompareCount ignore b
   | _, _ => compareValue strEq a b
 
 /-- `shallow_equal`. -/
